@@ -101,7 +101,11 @@ func caseRelay(r *mon.Rec, idx int) {
 	if rng.IntN(3) == 0 {
 		depth = 1 + rng.IntN(3)
 	}
-	msg, desc := inner(rng, g, 1+rng.IntN(11))
+	mt0 := 1 + rng.IntN(11)
+	if rng.IntN(5) == 0 { // what a relay wraps is any message: DHCPv4-query/response (20, 21), lease query types, unassigned octets
+		mt0 = []int{20, 21, 14, 15, 16, 17, 18, 19, 36, 255, 0}[rng.IntN(11)]
+	}
+	msg, desc := inner(rng, g, mt0)
 	fail := func(key, f string, a ...any) {
 		r.Violate("C16:"+key, fmt.Sprintf("depth %d inner %s: ", depth, desc)+fmt.Sprintf(f, a...), rp)
 	}
@@ -257,6 +261,15 @@ func caseRelay(r *mon.Rec, idx int) {
 			r.Count("chains_with_arbitrary_hop_counts", 1)
 			if !check("built-anyhops", cur) {
 				return
+			}
+			// one more level on top of such a chain: its hop count is the wrapped message's hop count plus one (what the
+			// wrapped relay's header says, not what can be counted)
+			if top, ok := cur.(*dhcpv6.RelayMessage); ok && top.HopCount < 255 {
+				w, err := dhcpv6.EncapsulateRelay(cur, dhcpv6.MessageTypeRelayForward, net.ParseIP("2001:db8::1"), net.ParseIP("fe80::1"))
+				if err != nil || w.HopCount != top.HopCount+1 {
+					fail("hop-count-on-top", "a relay message with hop count %d was wrapped once more: new hop count %d (err %v), want %d", top.HopCount, w.HopCount, err, top.HopCount+1)
+					return
+				}
 			}
 		}
 		chainTree := proj.M6(cur).String()
